@@ -941,6 +941,82 @@ mod parsers {
     }
 }
 
+// ---------------------------------------------------------------- static resources: right file, exact bytes, media type (C02)
+mod statics {
+    use super::*;
+    // an independent statement of the documented lookup and of the registry rows for the extensions in the tree
+    fn tree() -> Vec<(&'static str, Vec<u8>)> {
+        let all: Vec<u8> = (0..=255u8).collect();
+        vec![("empty.txt", vec![]), ("one.bin", vec![7]), ("all.dat", all.clone()), ("app.min.js", b"js".to_vec()), ("report.2024.html", b"<p>r</p>".to_vec()),
+             ("page.html.gz", vec![0x1f, 0x8b, 0]), ("notes.htmx.json", b"{}".to_vec()), ("photo.v1.2.jpeg", vec![0xff, 0xd8]), ("noext", b"plain".to_vec()),
+             ("sub/deep/file.css", b"a{}".to_vec()), ("sub/index.html", b"<p>sub</p>".to_vec()), ("sub/deep/x.tar.gz", vec![1, 2, 3]), ("configure.html", b"<p>c</p>".to_vec()),
+             ("caf\u{e9}.txt", b"non-ascii name".to_vec()), ("noindex/readme.md", b"# r".to_vec()), ("sound.oga", vec![b'O', b'g', b'g', b'S']), ("big.bin", (0..70000u32).map(|i| (i % 253) as u8).collect()),
+             ("edge8191.bin", vec![b'e'; 8191]), ("edge8192.bin", vec![b'f'; 8192]), ("edge8193.bin", vec![b'g'; 8193]), (".hidden", b"h".to_vec()), ("x.HTML", b"upper".to_vec())]
+    }
+    fn mime(name: &str) -> &'static str {
+        let ext = name.rsplit('/').next().unwrap().rsplit_once('.').map(|(a, b)| if a.is_empty() { "" } else { b }).unwrap_or("");
+        match ext { "txt" => "text/plain", "js" => "text/javascript", "html" => "text/html", "gz" => "application/gzip", "json" => "application/json", "jpeg" => "image/jpeg",
+                    "css" => "text/css", "oga" => "audio/ogg", "bin" => "application/octet-stream", _ => "application/octet-stream" }
+    }
+    pub fn setup() {
+        e2e::setup();
+        for (n, c) in tree() { let p = std::path::Path::new(n); if let Some(d) = p.parent() { let _ = std::fs::create_dir_all(d); } std::fs::write(p, c).unwrap(); }
+        let _ = std::os::unix::fs::symlink("all.dat", "link-to-all.dat");
+    }
+    // (target, expected file or None for 404)
+    fn cases() -> Vec<(String, Option<String>)> {
+        let mut v: Vec<(String, Option<String>)> = vec![];
+        for (n, _) in tree() {
+            let enc = n.replace('\u{e9}', "\u{e9}");
+            v.push((format!("/{}", enc), Some(n.to_string())));
+            v.push((format!("/{}?v=1", enc), Some(n.to_string())));
+            v.push((format!("/{}?from=/static/index.html", enc), Some(n.to_string())));
+            v.push((format!("/{}?a=b#frag.html", enc), Some(n.to_string())));
+            v.push((format!("/{}x", enc), None));
+        }
+        for (t, f) in [("/sub", Some("sub/index.html")), ("/sub/", Some("sub/index.html")), ("/sub?x=1", Some("sub/index.html")), ("/sub/?x=/a.html", Some("sub/index.html")),
+                       ("/configure", Some("configure.html")), ("/configure?from=/static/index.html", Some("configure.html")), ("/configure?tab=2#top.html", Some("configure.html")),
+                       ("/report.2024", Some("report.2024.html")), ("/noindex", None), ("/noindex/", None), ("/sub/deep", None), ("/missing", None), ("/missing.html", None), ("/sub/missing", None),
+                       ("/empty", None), ("/noext/", None), ("/configure.htm", None), ("/link-to-all.dat", Some("all.dat"))] {
+            v.push((t.to_string(), f.map(|x| x.to_string())));
+        }
+        v
+    }
+    pub fn check(target: &str, want: &Option<String>) -> Option<(String, String)> {
+        let raw = format!("GET {} HTTP/1.1\r\nHost: localhost\r\n\r\n", target).into_bytes();
+        let out = match e2e::run(&raw, 0, false) { Ok(o) => o, Err(e) => return Some(("c02_panic".into(), e)) };
+        let p = match e2e::parse(&out) { Some(p) => p, None => return Some(("c02_unparseable".into(), format!("{} bytes", out.len()))) };
+        let ct = p.headers.iter().find(|(k, _)| k == "Content-Type").map(|(_, v)| v.clone());
+        let cl = p.headers.iter().find(|(k, _)| k == "Content-Length").map(|(_, v)| v.clone());
+        match want {
+            Some(f) => {
+                let content = std::fs::read(f).unwrap();
+                if p.status != 200 { return Some(("c02_status".into(), format!("{} for {} (selects {})", p.status, target, f))); }
+                if p.body != content { return Some(("c02_body".into(), format!("{}: {} body bytes, file {} has {}", target, p.body.len(), f, content.len()))); }
+                if cl.as_deref() != Some(content.len().to_string().as_str()) { return Some(("c02_content_length".into(), format!("{}: Content-Length {:?} for {} bytes", target, cl, content.len()))); }
+                if f != "all.dat" || !target.starts_with("/link") { if ct.as_deref() != Some(mime(f)) { return Some(("c02_media_type".into(), format!("{}: Content-Type {:?}, registered for {}: {}", target, ct, f, mime(f)))); } }
+                None
+            }
+            None => {
+                if p.status != 404 { return Some(("c02_not_found".into(), format!("{} for {} (nothing selected)", p.status, target))); }
+                for (n, c) in tree() { if c.len() > 3 && p.body == c { return Some(("c02_other_file".into(), format!("404 for {} carries the content of {}", target, n))); } }
+                None
+            }
+        }
+    }
+    pub fn search(_seed: u64) -> bool {
+        setup();
+        let mut h = Hits::new();
+        for (t, w) in cases() { if let Some((c, o)) = check(&t, &w) { h.hit("statics", &c, "Server::process", &t, &o); } }
+        h.n > 0
+    }
+    pub fn replay(_case: &str, input: &str) -> bool {
+        setup();
+        for (t, w) in cases() { if t == input { if let Some((c, o)) = check(&t, &w) { println!("{} {}", c, o); return true; } } }
+        false
+    }
+}
+
 // ---------------------------------------------------------------- multipart/form-data round trip (C16)
 mod mpform {
     use super::*;
@@ -1072,6 +1148,8 @@ pub fn dispatch(args: &[String]) -> i32 {
         ("replay", "request") => req::replay(&args[2], &args[3]),
         ("search", "shims") => shimtest::search(args.get(2).and_then(|s| s.parse().ok()).unwrap_or(1)),
         ("search", "parsers") => parsers::search(args.get(2).and_then(|s| s.parse().ok()).unwrap_or(1)),
+        ("search", "statics") => statics::search(1),
+        ("replay", "statics") => statics::replay(&args[2], &args[3]),
         ("search", "mpform") => mpform::search(args.get(2).and_then(|s| s.parse().ok()).unwrap_or(1)),
         ("search", "range") => rng::search(args.get(2).and_then(|s| s.parse().ok()).unwrap_or(1)),
         ("replay", "range") => rng::replay(&args[2], &args[3]),
